@@ -71,6 +71,10 @@ def as_term(eng, v, ty, st):
     """Coerce a value to an SMT term of the sort of ``ty``."""
     k = ty[0]
     if k == 'list':
+        if type(v).__name__ == 'VEmptyList':
+            return smt.Empty('(Seq %s)' % sort_of(ty[1]))
+        if isinstance(v, VRef) and st is not None and type(st.heap.get(v.loc)).__name__ == 'HPyList' and not st.heap[v.loc].items:
+            return smt.Empty('(Seq %s)' % sort_of(ty[1]))
         seq, elem = eng.seq_of(v, st)
         if elem != ty[1]:
             raise Undecided('spec argument: list element type %r, expected %r' % (elem, ty[1]))
